@@ -126,17 +126,19 @@ impl FeelIterator {
         let mut overflow = true;
         'inner: for (x, iteration_state) in self.iteration_states.iter_mut().enumerate() {
           if overflow {
+            // the next index; `None` when it is not representable, i.e. beyond any end
+            let next_index = iteration_state.index.checked_add(iteration_state.step);
             if x == last_iteration_state_index {
-              if iteration_state.step > 0 && iteration_state.index + iteration_state.step > iteration_state.end {
+              if iteration_state.step > 0 && next_index.map_or(true, |next| next > iteration_state.end) {
                 break 'outer;
               }
-              if iteration_state.step < 0 && iteration_state.index + iteration_state.step < iteration_state.end {
+              if iteration_state.step < 0 && next_index.map_or(true, |next| next < iteration_state.end) {
                 break 'outer;
               }
             }
             if iteration_state.step > 0 {
-              if iteration_state.index + iteration_state.step <= iteration_state.end {
-                iteration_state.index += iteration_state.step;
+              if let Some(next) = next_index.filter(|next| *next <= iteration_state.end) {
+                iteration_state.index = next;
                 overflow = false;
               } else {
                 iteration_state.index = iteration_state.start;
@@ -144,8 +146,8 @@ impl FeelIterator {
               }
             }
             if iteration_state.step < 0 {
-              if iteration_state.index + iteration_state.step >= iteration_state.end {
-                iteration_state.index += iteration_state.step;
+              if let Some(next) = next_index.filter(|next| *next >= iteration_state.end) {
+                iteration_state.index = next;
                 overflow = false;
               } else {
                 iteration_state.index = iteration_state.start;
